@@ -13,6 +13,14 @@ namespace Svgbob
 
 variable (len : List Char → Nat)
 
+/-- `Iterator::map(..).collect()` over a step that can panic: the first `none` aborts -/
+def mapOpt {α β : Type} (f : α → Option β) : List α → Option (List β)
+  | [] => some []
+  | x :: xs =>
+    match f x, mapOpt f xs with
+    | some y, some ys => some (y :: ys)
+    | _, _ => none
+
 /-- `Fragment::cmp` as used by the sorts of the pipeline (unscaled fragments) -/
 def fcmp (a b : Frag) : Ordering := Frag.cmp len a b
 
@@ -103,7 +111,7 @@ def spanEndorse (cat : Catalogue) (s : Span) : Option (List FragSpan × List Spa
   | some (acc1, rest) =>
     let (rects, rejects) := endorseRects (contactsOf len rest)
     let spans2 := spansOf (rejects.map groupSpan)
-    match spans2.mapM (endorseArcsAndCircles cat) with
+    match mapOpt (endorseArcsAndCircles cat) spans2 with
     | none => none
     | some rs => some (acc1 ++ rects ++ rs.flatMap (·.1), rs.map (·.2))
 
@@ -112,7 +120,7 @@ def spanEndorse (cat : Catalogue) (s : Span) : Option (List FragSpan × List Spa
 def endorseAll (cat : Catalogue) (cells : Span) (escaped : List (Cell × List Char)) :
     Option (List FragSpan × List (List FragSpan)) :=
   let spans := spansOf (cells.map fun cc => [cc])
-  match spans.mapM (spanEndorse len cat) with
+  match mapOpt (spanEndorse len cat) spans with
   | none => none
   | some rs =>
     let endorsed := rs.flatMap (·.1)
